@@ -504,9 +504,18 @@ fn match_text(text: &str, pat: &[(usize, Pat)]) -> Result<(), (Option<usize>, St
             }
             Pat::Hex(bytes) => {
                 const HD: &[u8; 16] = b"0123456789abcdef";
+                // whether the bytes of one raw argument are separated by a blank is not prescribed, but a canonical
+                // form separates all of them or none
+                let mut sep: Option<bool> = None;
                 for (i, b) in bytes.iter().enumerate() {
-                    if i > 0 && pos < tb.len() && tb[pos] == b' ' {
-                        pos += 1;
+                    if i > 0 {
+                        let blank = pos < tb.len() && tb[pos] == b' ';
+                        if blank {
+                            pos += 1;
+                        }
+                        if *sep.get_or_insert(blank) != blank {
+                            return Err((Some(k), format!("arg {k}: raw bytes are not uniformly separated: byte {i} ({:02x}) at text byte {pos} is {} by a blank, the earlier ones are{}", b, if blank { "preceded" } else { "not preceded" }, if blank { " not" } else { "" })));
+                        }
                     }
                     if pos + 2 > tb.len() || tb[pos] != HD[(b >> 4) as usize] || tb[pos + 1] != HD[(b & 15) as usize] {
                         return Err((Some(k), format!("arg {k}: raw byte {i} ({:02x}) not rendered as lower-case hex at byte {pos}", b)));
@@ -639,6 +648,8 @@ fn symbols() -> Vec<(Val, bool /*core*/)> {
         (BStr::lit(b"\x00\x01\xff"), true),
         (BStr::lit(b"\xab\xcd\xef\x01\x23\x45\x67\x89\xab\xcd\xef\x01\x23\x45\x67\x89"), false),
         (BStr::lit(b"\x41\x00\x00\x00"), false), // looks like a type-info
+        (BStr::rep(0xc3, 64, b"\xca"), false), // 65 bytes: one more than a typical block size
+        (BStr::rep(0x3c, 256, b"\xac"), false),
         (BStr::rep(0xa5, LONG, b""), false),
         (BStr::rep(0x5a, 0xffff, b""), false),
         (BStr::rep(0x5a, 0x10000, b""), false),
@@ -1288,7 +1299,7 @@ impl Prop for C18 {
                 "value alphabet and sequence lengths as listed under coverage.families; sequences longer than the bound and values outside the alphabet are not explored".into(),
                 "the serde Serializer NUL-terminates str/char values (documented in its source): expected raw value = UTF-8 bytes + NUL; ASCII strings and raw data are passed through as given".into(),
                 "native byte order of the host (little endian) for the serde Serializer / dlt_args!; big endian only via payload_from_args".into(),
-                "float text is judged numerically (token must be a decimal number that parses back to the same f32/f64; NaN/inf by any spelling the Rust parser accepts); how bytes outside the string's character set are displayed is not judged; a blank between raw bytes is optional".into(),
+                "float text is judged numerically (token must be a decimal number that parses back to the same f32/f64; NaN/inf by any spelling the Rust parser accepts); how bytes outside the string's character set are displayed is not judged; a blank between the bytes of a raw argument is optional but must be used uniformly (all or none) within the argument".into(),
                 "messages are built as DltMessage structs (verbose, noar = number of arguments); header parsing is C01/C02".into(),
             ],
             budget_s: (90, 1200),
